@@ -1,4 +1,4 @@
-// POSITIVE EXAMPLE (deliberately broken copy): R01e (sign never flips), R02h (labels overwritten on ties), R02i (stop / prune / best-update conditions) must fire
+// POSITIVE EXAMPLE (deliberately broken copy): R01e (sign never flips), R02h (a label is overwritten when the new one is greater), R02i (stop / prune / best-update conditions) must fire
 #ifndef PARMCB_DETAIL_SIGNED_DIJKSTRA_HPP_
 #define PARMCB_DETAIL_SIGNED_DIJKSTRA_HPP_
 
@@ -179,7 +179,7 @@ namespace parmcb {
                     boost::put(dist_map, w, c);
                     boost::put(pred_map, w, std::make_tuple(pred, true, pred_e));
                     queue.push(w);
-                } else if (!compare(boost::get(dist_map, w), c)) {
+                } else if (compare(boost::get(dist_map, w), c)) {
                     // already reached
                     boost::put(dist_map, w, c);
                     boost::put(pred_map, w, std::make_tuple(pred, true, pred_e));
